@@ -510,6 +510,62 @@ example : errOf (createTx V (req [(1, 0), (1, 0)] 50000)) = some (.duplicateSele
 
 end Example
 
+/-! ## `txCreator`: a locked wallet refuses; what it creates for a regular account is signed (round 2, seed C06-5)
+
+`txCreator` asks `holdUnlock()` before `txToOutputs` unless the whole manager is watch-only.  `txToOutputs` decides
+whether to sign through `Manager.IsWatchOnlyAccount`, i.e. `acctKeyPriv == nil`, which `Manager.Lock` makes true for
+every account (`isWatchOnlyAccount`).  The two sites together give the property's sentence "every input of a
+non-watch-only result carries a signature ... " its "or the call is refused" reading: -/
+
+/-- The guard of `txCreator` as it stands in the current source (re-extracted on every run by
+`harness/cmd/vxextract/createtxsites.go`): every `holdUnlock()` error — `ErrLocked` included — ends the request before
+`txToOutputs` is reached. -/
+theorem C06_generated_lock_guard : CreateTxSitesGen.holdUnlockErrorIsFatal = true := by decide
+
+/-- A locked wallet that is not watch-only refuses every request, dry runs included, with `ErrLocked`. -/
+theorem C06_locked_refused (ls : LockState) (V : View) (r : Request) (hl : ls.locked = true)
+    (hw : ls.managerWatchOnly = false) : txCreator ls V r = .error .locked := by
+  simp [txCreator, hl, hw]
+
+/-- A successful `txCreator` result is a `txToOutputs` result (so every theorem about `createTx` applies to it) and the
+wallet was unlocked (or is watch-only as a whole). -/
+theorem C06_txCreator_ok (ls : LockState) (V : View) (r : Request) (tx : Authored) (h : txCreator ls V r = .ok tx) :
+    createTx V r = .ok tx ∧ (ls.locked = false ∨ ls.managerWatchOnly = true) := by
+  unfold txCreator at h
+  split at h
+  · cases h
+  · rename_i hc
+    refine ⟨h, ?_⟩
+    cases hl : ls.locked <;> cases hw : ls.managerWatchOnly <;> simp_all
+
+/-- **Signed or refused**: in a wallet that is not watch-only, a successful non-dry request for an account that owns its
+private keys takes the signing branch (`AddAllInputScripts` + `validateMsgTx`).  The `IsWatchOnlyAccount` quirk below is
+unreachable because a locked wallet never gets past `holdUnlock`. -/
+theorem C06_signed_or_refused (ls : LockState) (V : View) (r : Request) (tx : Authored)
+    (hw : ls.managerWatchOnly = false) (hp : ls.acctHasPriv = true) (h : txCreator ls V r = .ok tx) :
+    signs ls false = true := by
+  have h2 := (C06_txCreator_ok ls V r tx h).2
+  rcases h2 with hl | hm
+  · simp [signs, isWatchOnlyAccount, hl, hp]
+  · rw [hw] at hm; cases hm
+
+/-- The quirk itself (why the guard in `txCreator` is load-bearing): while locked, `txToOutputs` would skip signing
+for EVERY account. -/
+theorem C06_locked_account_looks_watch_only (ls : LockState) (hl : ls.locked = true) (dry : Bool) :
+    signs ls dry = false := by
+  simp [signs, isWatchOnlyAccount, hl]
+
+/-- The selection clauses of C06 for what `txCreator` returns. -/
+theorem C06_txCreator_inputs (ls : LockState) (V : View) (r : Request) (tx : Authored) (hV : WF V)
+    (h : txCreator ls V r = .ok tx) :
+    (∀ c ∈ tx.ins, Eligible V r c) ∧ (tx.ins.map (·.op)).Nodup :=
+  have h1 := (C06_txCreator_ok ls V r tx h).1
+  ⟨C06_inputs_eligible V r tx hV h1, C06_inputs_distinct V r tx hV h1⟩
+
+example : Example.errOf (txCreator ⟨true, false, true⟩ Example.V (Example.req [] 400000)) = some .locked := by decide
+example : Example.errOf (txCreator ⟨false, false, true⟩ Example.V (Example.req [] 400000)) = none := by decide
+
+
 /-- **Finding F7** (code before fix 80523df): with `WithCustomSelectUtxos([op, op])` the transaction spends the same
 outpoint as input 0 and input 1 — the distinctness clause is false of `createTxUnfixed`. -/
 theorem C06_unfixed_duplicate_counterexample :
